@@ -62,6 +62,7 @@ fn main() {
       std::process::exit(2)
     }
   };
-  let rc = mc::run_property(spec, Options { tier, seed, replay, only, verif_dir, write_evidence });
+  let out_dir = std::env::var("VERIF_OUT").unwrap_or_else(|_| verif_dir.clone());
+  let rc = mc::run_property(spec, Options { tier, seed, replay, only, verif_dir, out_dir, write_evidence });
   std::process::exit(rc);
 }
